@@ -1,4 +1,5 @@
 import Chewing.Model.Basic
+import Chewing.Model.TrieValidate
 /-!
 Model of the *traversal* code of `src/dictionary/trie.rs` over the index table of a trie file
 (C12): `lookup_first_n_phrases` (the per-syllable thread sets, `bail_if_oob!`) and `entries()`
@@ -47,6 +48,14 @@ variable {P : Type}
 
 def Tbl.n (t : Tbl P) : Nat := t.recs.length
 def Tbl.get (t : Tbl P) (i : Nat) : Rec := t.recs.getD i default
+
+/-- the records as the triples `validate_index` reads -/
+def Tbl.rec3 (t : Tbl P) : List TrieValidate.Rec3 := t.recs.map fun r => (r.a, r.b, r.s)
+
+/-- `validate_index(index, data.len()).is_ok()`: what `Trie::new` / `TrieOpenOptions::read_from` require of the
+    decoded index before they return a `Trie` (repair of F16 / F17; `Model/TrieValidate.lean`).  Every
+    traversal below runs on a table that passed it; the theorems of `Props/C12.lean` assume nothing else. -/
+def validate (t : Tbl P) : Bool := TrieValidate.validate t.rec3 t.dataLen
 
 /-- a node view together with its record index -/
 abbrev Node := Nat × Rec
